@@ -22,6 +22,7 @@ ASSUMPTIONS = ['the DDL reader (verif/ddl.py) recognises CREATE TABLE and FOREIG
                'databases are API-built; table declaration order is t0..tn (all labellings cover all relative orders)']
 
 KINDS = ('>', '<', '-')
+TIER = 'quick'
 
 
 def bounds(tier):
@@ -61,14 +62,14 @@ def units(tier, seed):
         dags = [e for e in digraphs(n) if acyclic(n, e)]
         chunk = 40 if n <= 4 else 400
         for k in range(0, len(dags), chunk):
-            us.append(('dag', n, dags[k:k + chunk], 'plain'))
+            us.append(('dag', n, dags[k:k + chunk], 'plain', tier))
         if n <= 3:
             for k in range(0, len(dags), chunk):
-                us.append(('dag', n, dags[k:k + chunk], 'twoschema'))
+                us.append(('dag', n, dags[k:k + chunk], 'twoschema', tier))
     for n in (2, 3):
         cyc = [e for e in digraphs(n) if not acyclic(n, e)]
-        for k in range(0, len(cyc), 40):
-            us.append(('cyclic', n, cyc[k:k + 40], 'plain'))
+        for k in range(0, len(cyc), 3):
+            us.append(('cyclic', n, cyc[k:k + 3], 'plain', tier))
     return us
 
 
@@ -123,6 +124,24 @@ def check_model(m, acyclic_graph, case):
         return [violation(PID, 'render-crash', case, observed=exc_info(e), detail=f'{type(e).__name__}: {e}')], 'crash'
     if not (sql1 == sql2 == sql3):
         vs.append(violation(PID, 'order-not-deterministic', case, detail='two evaluations / an equal rebuilt database give different SQL'))
+    # "depends only on the model": a database that was rendered, then edited (one inline reference made standalone), must
+    # order its tables exactly like a database freshly built with the edited content and never rendered before
+    inl = [k for k, r in enumerate(m['refs']) if r['inline'] and r['type'] != '<>']
+    for k in ((inl if acyclic_graph or TIER != 'quick' else inl[:1]) if len(m['tables']) <= 3 else (inl[:1] if TIER != 'quick' else [])):
+        m2 = asm.clone(m)
+        m2['refs'][k]['inline'] = False
+        try:
+            dbe = builder.build(m)
+            dbe.sql
+            dbe.refs[k].inline = False
+            s_hist = dbe.sql
+            s_fresh = builder.build(m2).sql
+        except Exception as e:
+            vs.append(violation(PID, 'render-crash', dict(case, edit=k), observed=exc_info(e), detail=f'{type(e).__name__}: {e}'))
+            continue
+        if s_hist != s_fresh:
+            vs.append(violation(PID, 'order-depends-on-history', dict(case, edit=k),
+                                detail=f'after rendering and then making reference {k} standalone, .sql differs from the .sql of a fresh database with the same content'))
     try:
         st = ddl.read(sql1)
     except ddl.DDLError as e:
@@ -135,6 +154,17 @@ def check_model(m, acyclic_graph, case):
     created = [qn(s['name']) for s in st if s['kind'] == 'table']
     created_own = [c for c in created if not (c in join_names and c not in declared)]
     case = dict(case, observed_order=[list(c) for c in created_own])
+    # every inline FOREIGN KEY clause must sit in the table the model says holds that key (else the order question is moot)
+    want_fk = set()
+    for r in m['refs']:
+        if r['inline'] and r['type'] != '<>':
+            key, ref = (r['col2'], r['col1']) if r['type'] == '<' else (r['col1'], r['col2'])
+            want_fk.add(((key[0][0], key[0][1]), (ref[0][0], ref[0][1])))
+    got_fk = {(qn(s['name']), qn(fk['ref_table'])) for s in st if s['kind'] == 'table' for fk in s['fks']}
+    if got_fk != want_fk:
+        vs.append(violation(PID, 'inline-fk-misplaced', case, expected=sorted(want_fk), observed=sorted(got_fk),
+                            detail=f'inline FOREIGN KEY clauses (holder, target) {sorted(got_fk)} != model inline edges {sorted(want_fk)}'))
+        return vs, 'misplaced'
     if sorted(created_own) != sorted(declared):
         vs.append(violation(PID, 'not-a-permutation', case, expected=sorted(declared), observed=created_own,
                             detail=f'CREATE TABLE list {created_own} is not a permutation of the tables {declared}'))
@@ -158,7 +188,8 @@ def check_model(m, acyclic_graph, case):
 
 
 def work(unit):
-    mode, n, graphs, variant = unit
+    global TIER
+    mode, n, graphs, variant, TIER = unit
     p = new_part()
     for edges in graphs:
         e = len(edges)
